@@ -135,8 +135,26 @@ def de2_is_map_order_independent(ctx):
     """DE2._Step: all strategy/constraints calls precede the map; nothing in the mapped wrappers draws random numbers; results are consumed by loop index; python_map keeps order"""
     f = ctx.func('mystic.differential_evolution:DifferentialEvolutionSolver2._Step')
     sn = selfname_of(f)
-    maps = [s for s in f.node.body if calls_where(s, lambda c: self_call(c, '_map', sn), include_lambda=False)]
-    ctx.need(len(maps) == 1, 'DE2._Step: expected one map statement, found %d' % len(maps))
+    allmaps = [s for s in stmts_of(f.node) if not isinstance(s, (ast.If, ast.For, ast.While, ast.Try, ast.With)) and
+               calls_where(s, lambda c: self_call(c, '_map', sn), include_lambda=False)]
+    ctx.need(allmaps, 'DE2._Step: no map statement found')
+    # only the decorated objective may run inside the map: constraints and strategies are user callables that may draw
+    # random numbers, so mapping them makes the random stream depend on the map's schedule
+    maps = []
+    for s_ in allmaps:
+        for c in calls_where(s_, lambda c: self_call(c, '_map', sn), include_lambda=False):
+            a0 = c.args[0] if c.args else None
+            is_obj = False
+            if isinstance(a0, ast.Name):
+                ds = [d for d in stmts_of(f.node) if isinstance(d, ast.Assign) and len(d.targets) == 1 and isinstance(d.targets[0], ast.Name) and d.targets[0].id == a0.id]
+                is_obj = bool(ds) and all(isinstance(d.value, ast.Call) and self_call(d.value, '_bootstrap_objective', sn) for d in ds)
+            if is_obj:
+                maps.append(s_)
+            else:
+                ctx.bad('DifferentialEvolutionSolver2._Step#mapped-callable', 'self._map runs `%s`, which is not the decorated objective: a user callable that may draw random '
+                        'numbers (constraints, strategy) is evaluated in whatever order the map chooses' % (unparse(a0)[:40] if a0 is not None else None), f, c)
+    ctx.need(len(maps) == 1, 'DE2._Step: expected one map of the objective, found %d' % len(maps))
+    ctx.ok('DifferentialEvolutionSolver2._Step#mapped-callable', 'the only mapped callable is the decorated objective', f, maps[0])
     ml = maps[0].lineno
     late = [c for c in calls_where(f.node, lambda c: isinstance(c.func, ast.Name) and c.func.id in ('strategy', 'constraints'), include_lambda=False)
             if c.lineno > ml]
